@@ -1181,7 +1181,10 @@ Proof.
   cbv zeta. split; [|vm_compute; reflexivity].
   intros i f. unfold row_group_matches, column_statistics, nth_z. cbn [r_row_groups].
   destruct (i <? 0); [discriminate|].
-  destruct (Z.to_nat i) as [|[|[|k]]]; vm_compute; discriminate.
+  destruct (Z.to_nat i) as [|[|[|k]]]; [vm_compute; discriminate ..|].
+  (* beyond the last row group: ROW_GROUP_NOT_FOUND, reported through the status *)
+  cbn [nth_error]. replace (nth_error (@nil (list chunk)) k) with (@None (list chunk)) by (destruct k; reflexivity).
+  discriminate.
 Qed.
 
 From Coq Require Import Floats.SpecFloat ZifyN ZifyBool.
